@@ -21,6 +21,12 @@ func (h *Hub) IsRemoteServiceForSKIPaired(ski string) bool {
 func (h *Hub) HandleConnectionClosed(connection api.ShipConnectionInterface, handshakeCompleted bool) {
 	remoteSki := connection.RemoteSKI()
 
+	// a connection reads from its transport as soon as it is created: if it fails while
+	// it is still being set up, wait until it is registered, otherwise it would be
+	// registered after its end was reported and never be removed
+	h.muxConSetup.Lock()
+	h.muxConSetup.Unlock() //nolint:staticcheck
+
 	// only remove this connection if it is the registered one for the ski!
 	// as we can have double connections but only one can be registered
 	// checking and removing has to be one step, otherwise a newer connection registered
